@@ -15,7 +15,7 @@ EXPLANATION = (
     "paseto-core. R12.4: the only public way to reach a sealed token's footer is `unverified_footer`; its fields are not public. "
     "R12.5/R12.6 (shared with C02 R02.5/R02.7): a wrong implicit assertion is rejected (v1/v2) or authenticated (v3/v4), and what is authenticated is the token as received (stored footer bytes, not a re-encoding), so a token that should fail authentication does fail it. These are pure ordering/census properties, so nothing value-dependent remains once they hold.")
 ASSUMPTIONS = ["rustc type checking / MIR construction are correct", "path enumeration covers every acyclic MIR path of the analysed functions (they are loop-free; a loop is reported)"]
-FLOORS = {"R12.1": 1, "R12.2": 12, "R12.3": 13, "R12.4": 4, "R12.5": 12, "R12.6": 1, "R12.7": 24}
+FLOORS = {"R12.1": 1, "R12.2": 12, "R12.3": 13, "R12.4": 4, "R12.5": 12, "R12.6": 1, "R12.7": 24, "R12.8": 1}
 ALLOWED_ERR = {"InvalidToken", "CryptoError", "ClaimsError"}
 PAYLOADERROR_SITES = {
     ("paseto_core", "tokens::SealedToken::<V, P, M, F>::unseal"): "decode error of an authenticated payload (behind the R12.1 gate)",
@@ -130,6 +130,12 @@ def run(ctx):
     c02.check_core_plumbing(sc2)
     for (rule, k, ok, detail, site) in sc2.findings:
         ctx.add("R12.6", "C12/R12.6/core-passes-received-bytes", ok, detail, site)
+    sc3 = Scratch2()
+    sc3.repo = getattr(ctx, "repo", None)
+    c02.check_manifest_features(sc3)
+    for (rule, k, ok, detail, site) in sc3.findings:
+        # R12.8 (shared with C02 R02.9): the verifier is not configured (dependency feature) to accept re-encoded signatures
+        ctx.add("R12.8", "C12/R12.8/manifest-features", ok, detail, site)
     # PayloadError construction census (aggregate or constructor fn item)
     sites = set()
     for c in ctx.crates.values():
